@@ -122,10 +122,15 @@ def check_witness(ck, owners, fn, objs, rule, exits=("ret",)):
                 olds.append((p, b, i, arg, o))
     # final owner-field values, per exit kind
     for (xkind, xblock, xguard, xmem) in sm.exits:
+        implicit = xkind == "resume_call"
+        if implicit:
+            xkind = "resume"
         if xkind not in exits:
             continue
         finals = []
         for (arg, role, pre, post) in objs:
+            if role == "new" and xkind != "ret":
+                continue  # the constructor did not complete: the object does not exist
             if role in ("live", "new"):
                 for o in owners:
                     addr = tu.arg(fn, arg) + o.off
@@ -155,10 +160,25 @@ def check_witness(ck, owners, fn, objs, rule, exits=("ret",)):
             # [container.requirements]: swapping containers whose allocators neither propagate on swap nor
             # compare equal is undefined - equal allocators are the precondition
             base.add(c_cmp("eq", tu.obs(fn, "pre", "id"), tu.obs(fn, "pre_w", "id")))
+        # an allocator never returns null
+        for e in ev_alloc:
+            base.add(c_not(c_cmp("eq", e.res, ZERO)))
+        # events behind the throwing call of this exit did not happen
+        cut = _throw_seq(xguard) if implicit else 1 << 30
+        ea = [e for e in ev_alloc if e.seq <= cut]
+        ed = [e for e in ev_dealloc if e.seq <= cut]
+        if xkind == "resume":
+            # the property's fault model: the allocator throws (value-type constructors are out of scope)
+            ts = _throw_seq(xguard)
+            thrower = [e for e in sm.events if e.seq == ts]
+            if not thrower or thrower[0].kind != "ALLOC" or len([l for l in cond_atoms(xguard) if l[0] == "throws" and _pos_literal(xguard, l)]) != 1:
+                continue
         ncases = 0
         for f in case_split(split, base, max_cases=256):
+            if f.eval(simplify_cond(xguard, f)) is False or f.infeasible():
+                continue  # this resolution does not reach the exit
             ncases += 1
-            _check_case(ck, owners, fn, objs, rule, sm, f, olds, finals, ev_alloc, ev_dealloc, xkind)
+            _check_case(ck, owners, fn, objs, rule, sm, f, olds, finals, ea, ed, xkind)
         rec.count("ownership_cases", ncases)
 
 
@@ -166,7 +186,7 @@ def _check_case(ck, owners, fn, objs, rule, sm, f, olds, finals, ev_alloc, ev_de
     tu, rec = ck.tu, ck.rec
     S = lambda t: simplify(t, f)
     key0 = fn.replace("w_", "") + ("" if xkind == "ret" else ":" + xkind)
-    happens = lambda e: f.decide(simplify_cond(e.guard, f))
+    happens = lambda e: f.eval(simplify_cond(e.guard, f))
     blocks = {}  # canonical ptr term -> dict(bytes, id, origin, state)
     # old blocks (non-null in this case)
     for (p, b, i, arg, o) in olds:
@@ -177,6 +197,8 @@ def _check_case(ck, owners, fn, objs, rule, sm, f, olds, finals, ev_alloc, ev_de
                 f.add(c_cmp("eq", b, ZERO))
             continue
         blocks[S(p)] = {"bytes": S(b), "id": S(i), "origin": "%s.%s" % (arg, o.kind), "state": "owned", "kind": o.kind, "maybe_null": isnull is None}
+    if f.infeasible():
+        return  # the pre-state invariants rule this resolution out
     order = sorted(ev_alloc + ev_dealloc, key=lambda e: e.seq)
     for e in order:
         h = happens(e)
@@ -186,6 +208,8 @@ def _check_case(ck, owners, fn, objs, rule, sm, f, olds, finals, ev_alloc, ev_de
             rec.broken("%s %s %s: guard of %r undecided in case %s" % (tu.cfg, rule, fn, e, [show_cond(c) for c in f.raw[-5:]]))
             return
         if e.kind == "ALLOC":
+            if f.decide(("throws", e.seq)) is True:
+                continue  # this is the allocation that failed: no block
             blocks[e.res] = {"bytes": S(e.args[1]), "id": S(e.args[0]), "origin": "alloc@%s" % tu.libfn(sm, e), "state": "owned", "kind": None, "event": e}
             continue
         idt, p, nbytes = S(e.args[0]), S(e.args[1]), S(e.args[2])
@@ -360,3 +384,111 @@ def null_writes(ck, owners, rule="NULLW", fns=None):
                     rec.finding(rule, "%s:%s-through-null-%s-in-%s[%s]" % (fn.replace("w_", ""), e.kind, arg, tu.libfn(sm, e).split("@")[0], ck.catkey()),
                                 "%s: when %s has no block (null, memory_consumption()==0) %r still executes (case %s) at %s" % (
                                     fn, arg, e, " && ".join(show_cond(c) for c in bad.raw[-4:])[:240], tu.where(sm, e)), config=tu.cfg)
+
+
+def fault_rules(ck, owners, fm, rule="F", fns=None):
+    """C17: every allocation is a fault site; on its unwind path the exception propagates (F5), destroyed
+    elements are no longer counted (F3) and strong operations leave their operand untouched (F4).
+    F1/F2/F6 are the ownership balance at the 'resume' exits (ownership(..., exits=('resume',)))."""
+    tu, rec = ck.tu, ck.rec
+    W = witness_objects(tu)
+    for fn, objs in W.items():
+        if fns is not None and fn not in fns:
+            continue
+        sm = tu.S(fn)
+        allocs = [e for e in sm.events if e.kind == "ALLOC"]
+        rec.count("fault_sites", len(allocs))
+        resumes = [x for x in sm.exits if x[0] in ("resume", "resume_call")]
+        for e in allocs:
+            thr = ("throws", e.seq)
+            f = Facts([thr])
+            # F5: no terminate on the unwind path of this allocation
+            bad = [t for t in sm.events if t.kind == "TERMINATE" and Facts([thr, e.guard]).decide(simplify_cond(t.guard, Facts([thr, e.guard]))) is not False and _mentions_cond(t.guard, thr)]
+            reach = [x for x in resumes if _mentions_cond(x[2], thr)]
+            ok = not bad and bool(reach)
+            rec.ob(rule + "5", ok, {"config": tu.cfg, "witness": fn, "obligation": "failure of allocation #%d propagates" % e.seq, "alloc": repr(e)[:160]})
+            if not ok:
+                rec.finding(rule + "5", "%s:alloc-failure-terminates-in-%s[%s]" % (fn.replace("w_", ""), tu.libfn(sm, e).split("@")[0], ck.catkey()),
+                            "%s: if allocation %r throws, the exception %s (allocation at %s)" % (
+                                fn, e, "reaches std::terminate (a noexcept frame is on the unwind path)" if bad else "does not leave the function through any exit the analysis sees",
+                                tu.where(sm, e)), config=tu.cfg)
+        # F3 / F4 at each resume exit
+        for (xkind, xblock, xguard, xmem) in resumes:
+            fx = Facts([xguard])
+            cut = _throw_seq(xguard) if xkind == "resume_call" else 1 << 30
+            ts = _throw_seq(xguard)
+            thrower = [e for e in sm.events if e.seq == ts]
+            if not thrower or thrower[0].kind != "ALLOC" or len([l for l in cond_atoms(xguard) if l[0] == "throws" and _pos_literal(xguard, l)]) != 1:
+                continue
+            for (arg, role, pre, post) in objs:
+                if role != "live":
+                    continue
+                base = tu.arg(fn, arg)
+                # F3: elements destroyed on this path are no longer counted
+                if fm.size is not None and pre is not None:
+                    widx = tu.argidx(fn, arg)
+                    it = sm.interp
+                    dt = [d for d in sm.events if d.kind == "DTOR" and d.seq < cut and fx.decide(simplify_cond(d.guard, fx)) is not False
+                          and _region_owner(it.region_of(d.args[0])) == widx]
+                    if dt:
+                        size_after = xmem.w.get((base + fm.size, 8))
+                        if size_after is None:
+                            size_after = atom(("mem", base + fm.size, 8))
+                        size_after = simplify(size_after, fx)
+                        still = (size_after - atom(("mem", base + fm.size, 8))).const() == 0
+                        rec.ob(rule + "3", not still, {"config": tu.cfg, "witness": fn, "obligation": "elements of %s destroyed before the fault are not counted by size() afterwards" % arg})
+                        if still:
+                            rec.finding(rule + "3", "%s:destroyed-elements-still-counted-%s[%s]" % (fn.replace("w_", ""), arg, ck.catkey()),
+                                        "%s: on the unwind path (%s) the elements of %s were destroyed (%r at %s) but size() is unchanged: they would be destroyed again" % (
+                                            fn, show_cond(xguard)[:160], arg, dt[0], tu.where(sm, dt[0])), config=tu.cfg)
+                # F4: strong guarantee
+                strong = (fn == "w_reserve" and arg == "v") or (fn == "w_copy_ctor" and arg == "w") or (fn == "w_copy_assign" and arg == "w")
+                if strong:
+                    changed = []
+                    for (addr, size), v in xmem.w.items():
+                        off = (addr - base).const()
+                        if off is None or off < 0 or off > 512:
+                            continue
+                        v2 = simplify(v, fx) if isinstance(v, Lin) else v
+                        if v2 != atom(("mem", addr, size)):
+                            changed.append((off, v2))
+                    widx = tu.argidx(fn, arg)
+                    touched = [d for d in sm.events if d.kind in ("DTOR", "CTOR_MOVE", "ASSIGN_MOVE", "MEMCPY", "MEMMOVE")
+                               and fx.decide(simplify_cond(d.guard, fx)) is not False and d.seq < min(cut, _throw_seq(xguard) if xkind == "resume_call" else 1 << 30)
+                               and _region_owner(sm.interp.region_of(d.args[0] if d.kind != "CTOR_MOVE" else d.args[1])) == widx]
+                    ok = not changed and not touched
+                    rec.ob(rule + "4", ok, {"config": tu.cfg, "witness": fn, "obligation": "%s unchanged when an allocation fails" % arg})
+                    if not ok:
+                        rec.finding(rule + "4", "%s:operand-%s-modified-before-fault[%s]" % (fn.replace("w_", ""), arg, ck.catkey()),
+                                    "%s: on the unwind path (%s) operand %s is already modified: %s" % (
+                                        fn, show_cond(xguard)[:160], arg,
+                                        ("field +%d := %s" % (changed[0][0], show(changed[0][1])[:120])) if changed else repr(touched[0])[:200]), config=tu.cfg)
+
+
+def _pos_literal(c, leaf):
+    """leaf occurs positively (not under a negation) in the conjunction c"""
+    if c == leaf:
+        return True
+    if c[0] == "and":
+        return any(_pos_literal(x, leaf) for x in c[1:])
+    if c[0] == "or":
+        return any(_pos_literal(x, leaf) for x in c[1:])
+    return False
+
+
+def _mentions_cond(c, leaf):
+    return leaf in cond_atoms(c)
+
+
+def _throw_seq(guard):
+    s = [l[1] for l in cond_atoms(guard) if l[0] == "throws"]
+    return max(s) if s else 1 << 30
+
+
+def _region_owner(r):
+    """argument index of the container that owns region r (its object, its data block or its table)"""
+    if r[0] == "OBJ":
+        return r[1]
+    if r[0] in ("DATA", "TABLE") and len(r) > 1 and r[1][0] == "OBJ":
+        return r[1][1]
+    return None
